@@ -15,6 +15,12 @@
               curvature; a fit is linear in the ordinates; and the fit is the LEAST-SQUARES OPTIMUM:
               its residual is orthogonal to every cardinal spline of the fit grid (normal equations,
               cubic natural, cubic periodic and linear spline).
+   "mirror"   REFLECTION SYMMETRY: for the data (x_i, y_i) and the mirrored data (-x_{N+1-i}, y_{N+1-i})
+              every interpolant of the statement satisfies S_m(-x) = S(x), S_m'(-x) = -S'(x), also in the
+              extrapolation regions; natural boundaries, lin/cubic/Akima Interpolate, lin/cubic Fit
+              (mirrored data on the mirrored grid).  Mirroring is exact on the lattice.  The slope of
+              the LINEAR spline is not compared at interior knots (it jumps there and the code reports
+              the right-hand piece, which is the other piece after mirroring).
    "scale"    SCALE INVARIANCE with exact powers of two (multiplication by 2^k is exact in binary
               floating point, so the scaled computation is the same computation): an instance may carry
               an ordinate scale ys (y -> 2^ys y) or an abscissa scale xs (x -> 2^xs x); the harness feeds
@@ -50,6 +56,7 @@ Init == /\ ph = 0
               /\ \/ \E z \in Y2Of(n), m \in MulSet : c = [fam |-> "linear", K |-> Knots(o, g), Y |-> y, Z |-> z, m |-> m]
                  \/ c = [fam |-> "fitspace", K |-> Knots(o, g), Y |-> y]
                  \/ n >= 3 /\ c = [fam |-> "fitopt", K |-> Knots(o, g), Y |-> y]
+                 \/ n >= 3 /\ c = [fam |-> "mirror", K |-> Knots(o, g), Y |-> y]
                  \* 1/ScaleThin of the data sets, each with one of the six scales
                  \/ /\ n >= 3 /\ Hash2(n, g, y) % ScaleThin = 0
                     /\ c = [fam |-> "scale", K |-> Knots(o, g), Y |-> y, v |-> ((Hash2(n, g, y) \div ScaleThin) % 6) + 1]
@@ -128,6 +135,30 @@ PBil == [k \in 1..N |-> NormalEquation("least-squares:normal-equation", 4, 7 + k
         \o [k \in 1..N |-> NormalEquation("least-squares:normal-equation", 7, 7 + N + k, QP, PerY)]
         \o [k \in 1..(N - 1) |-> NormalEquation("least-squares:normal-equation", 1, 7 + 2 * N + k, QP, PerY)]
 
+\* ---- reflection symmetry -----------------------------------------------------------------------
+Mirror(x) == [i \in 1..Len(x) |-> -x[Len(x) + 1 - i]]
+Reverse(y) == [i \in 1..Len(y) |-> y[Len(y) + 1 - i]]
+MData == <<[k |-> K, y |-> Y], [k |-> Mirror(K), y |-> Reverse(Y)],
+           [k |-> QP, y |-> PerY], [k |-> Mirror(QP), y |-> Reverse(PerY)]>>
+\* configurations as in the scale family, natural boundaries only; instance 2i-1 original, 2i mirrored
+MCfgs == <<<<"lin", "interp">>, <<"cubic", "interp">>>>
+         \o (IF N >= 4 THEN <<<<"akima", "interp">>>> ELSE <<>>)
+         \o <<<<"lin", "fit">>, <<"cubic", "fit">>>>
+MInst(cf, m) == IF cf[2] = "interp"
+                THEN [t |-> cf[1], b |-> 0, api |-> "e", op |-> "interp", d |-> IF m THEN 2 ELSE 1]
+                ELSE [t |-> cf[1], b |-> 0, api |-> "i", op |-> "fit", d |-> IF m THEN 4 ELSE 3,
+                      g |-> IF m THEN Mirror(K) ELSE K]
+MInsts == [j \in 1..(2 * Len(MCfgs)) |-> MInst(MCfgs[(j + 1) \div 2], j % 2 = 0)]
+InteriorKnot(r) == \E i \in 2..(N - 1) : K[i] = r
+MRels == Flatten([i \in 1..Len(MCfgs) |->
+           LET s == 2 * i - 1
+               m == 2 * i
+               slopePts == IF MCfgs[i][1] = "lin" THEN SelectSeq(AllPts, LAMBDA r : ~InteriorKnot(r)) ELSE AllPts
+           IN [j \in 1..Len(AllPts) |->
+                 Relation("reflection-symmetry:value", s, <<Term(1, m, 0, -AllPts[j]), Term(-1, s, 0, AllPts[j])>>)]
+              \o [j \in 1..Len(slopePts) |->
+                 Relation("reflection-symmetry:slope", s, <<Term(1, m, 1, -slopePts[j]), Term(1, s, 1, slopePts[j])>>)]])
+
 \* ---- scale invariance ---------------------------------------------------------------------------
 ScaleOf(v) == IF v = 1 THEN <<-60, 0>> ELSE IF v = 2 THEN <<-40, 0>> ELSE IF v = 3 THEN <<40, 0>>
               ELSE IF v = 4 THEN <<0, -20>> ELSE IF v = 5 THEN <<0, 20>> ELSE <<0, 30>>
@@ -186,6 +217,8 @@ Theorems == ph = 1 =>
 Vector == (Emit /\ ph = 1) =>
   PrintT(ToJson(
     IF c.fam = "linear" THEN [fam |-> "linear", data |-> LData, inst |-> LInsts, exact |-> <<>>, rel |-> CompactRels(LRels)]
+    ELSE IF c.fam = "mirror" THEN [fam |-> "mirror", data |-> MData, inst |-> MInsts, exact |-> <<>>,
+                                   rel |-> CompactRels(MRels)]
     ELSE IF c.fam = "scale" THEN [fam |-> "scale", data |-> <<[k |-> K, y |-> Y], [k |-> QP, y |-> PerY]>>,
                                   inst |-> SInsts, exact |-> <<>>, rel |-> CompactRels(SRels),
                                   probe |-> CompactRels(SProbe)]
